@@ -1,5 +1,7 @@
 import Pathrs.Proofs.Props.C10
 import Pathrs.Proofs.Props.C03
+import Pathrs.Proofs.Props.C01
+import Pathrs.Proofs.RunsWorld
 
 /-!
 # C14 — single-entry operations act on exactly (in-root parent, final name)
@@ -212,3 +214,31 @@ theorem C14_rename_shape (env : Env) (root : Root) (src dst : Bytes) (rflags : N
 /-- non-vacuity: `path_split` of `a/b` is (`a`, `b`); of `a/b/` the name is missing (trailing slash) -/
 example : Path.pathSplit b!"a/b" = .ok (b!"a", some b!"b") := by rfl
 example : Path.pathSplit b!"a/b/" = .ok (b!"a/b", none) := by rfl
+
+/-! ### the parent, on a world
+
+The shape theorems say that the mutating call is made on the descriptor a run of
+`Resolver.resolve … parent false` returned.  When that lookup's answers come from a well-formed
+world (an unmodified tree), the descriptor is the specification's in-root resolution of the parent
+path (`World.resolveInRoot`, the meaning of `openat2(RESOLVE_IN_ROOT)`), on either backend. -/
+
+open KRun KSim KSpec World in
+theorem C14_parent_is_spec {w : World} (hw : w.WF) (r : Resolver) (parent : Bytes) (hnul : parent.contains 0 = false)
+    {h hm : Hist} {dir : Fd}
+    (hres : Runs (Resolver.resolve (kenv w) r w.root parent false) h hm (.ok dir))
+    (l : Hist) (hl : hm = h ++ l) (ha : AnswersFrom w l) :
+    resolveInRoot w (if r.emulated then ecfg r.rflags false else kcfgK w r.rflags false) parent = .ok dir := by
+  have hd := Runs.world_det (w := w) hres l hl ha
+  rw [C01_any_backend hw r parent hnul false] at hd
+  cases hs : resolveInRoot w (if r.emulated then ecfg r.rflags false else kcfgK w r.rflags false) parent with
+  | ok c => rw [hs] at hd; simp [toOut] at hd; rw [hd]
+  | error e => rw [hs] at hd; simp [toOut] at hd
+
+open KRun KSim KSpec World in
+/-- … and so lies inside the root's tree -/
+theorem C14_parent_inside_root {w : World} (hw : w.WF) (r : Resolver) (parent : Bytes) (hnul : parent.contains 0 = false)
+    {h hm : Hist} {dir : Fd}
+    (hres : Runs (Resolver.resolve (kenv w) r w.root parent false) h hm (.ok dir))
+    (l : Hist) (hl : hm = h ++ l) (ha : AnswersFrom w l) : ∃ p, w.dpath dir = some p :=
+  C01_inside_root hw _ parent dir (C14_parent_is_spec hw r parent hnul hres l hl ha)
+
